@@ -11,6 +11,8 @@ SPEC = os.path.join(ROOT, "spec")
 HARN = os.path.join(ROOT, "harness")
 TLAJAR = "/opt/veriftools/tla/tla2tools.jar:/opt/veriftools/tla/CommunityModules-deps.jar"
 NCPU = min(16, os.cpu_count() or 4)
+# the registered checks always write /verif/evidence; the seeded-change driver redirects it
+EVID = os.environ.get("VERIF_EVIDENCE_DIR", os.path.join(ROOT, "evidence"))
 
 ARCH = {
     "avx2": ["-mavx2", "-mpclmul", "-mbmi", "-mlzcnt"],
@@ -68,7 +70,7 @@ class Ctx:
         self.fail = []           # failure records (dicts)
         self.tlc_runs = []
         self.exhaustive = True
-        self.replay_dir = os.path.join(ROOT, "evidence", "replay")
+        self.replay_dir = os.path.join(EVID, "replay")
         os.makedirs(self.replay_dir, exist_ok=True)
         for f in os.listdir(self.replay_dir):
             if f.startswith(prop + "-"):
@@ -85,7 +87,7 @@ class Ctx:
 
     # ------------------------------------------------------------------ TLC
     def tlc(self, module, cfg=None, env=None, workers=NCPU, timeout=900, simulate=None,
-            depth=None, xmx="6g", xss=None, extra=None, tag=None, check=True, deadlock=False):
+            depth=None, xmx="6g", xss="64m", extra=None, tag=None, check=True, deadlock=False):
         """Run TLC on spec/<module>.tla.  cfg: text of the .cfg (or None to use <module>.cfg).
         Returns dict(exit, generated, distinct, out, coverage)."""
         tag = tag or module
@@ -160,6 +162,10 @@ class Ctx:
         e = dict(env or {})
         e["OUT"] = out
         r = self.tlc(module, cfg=cfg, env=e, **kw)
+        if r["exit"] != 0:          # a generator has no property to violate: retry once, then give up
+            if os.path.exists(out):
+                os.unlink(out)
+            r = self.tlc(module, cfg=cfg, env=e, **kw)
         if r["exit"] != 0:
             sys.stdout.write(r["out"][-3000:])
             self.abort(f"generator spec {module} ended with exit {r['exit']}")
@@ -185,6 +191,13 @@ class Ctx:
         parallel.  Returns {tag: path}.  A compile error is not a property verdict."""
         name = name or os.path.splitext(src)[0]
         outs = {}
+        self._bcache = getattr(self, "_bcache", {})
+        ckey = (src, name, tuple(defines), hooks, tuple(extra), tuple(libs))
+        have = self._bcache.setdefault(ckey, {})
+        need = [t for t in tags if t not in have]
+        if not need:
+            return {t: have[t] for t in tags}
+        tags_all, tags = tags, need
 
         def one(tag):
             cxx, fl = build_flags(tag)
@@ -201,8 +214,8 @@ class Ctx:
                 if p.returncode != 0:
                     sys.stdout.write(p.stderr[-4000:])
                     self.abort(f"harness {src} does not compile in build {tag} against {REPO}/include")
-                outs[tag] = out
-        return outs
+                have[tag] = out
+        return {t: have[t] for t in tags_all}
 
     # ------------------------------------------------------------- failures
     def add_fail(self, rec):
@@ -260,8 +273,8 @@ class Ctx:
                   violations=len(unlisted))
         if note:
             ev["coverage"]["explanation"] = note
-        os.makedirs(os.path.join(ROOT, "evidence"), exist_ok=True)
-        json.dump(ev, open(os.path.join(ROOT, "evidence", f"{self.prop}.json"), "w"), indent=1, default=str)
+        os.makedirs(EVID, exist_ok=True)
+        json.dump(ev, open(os.path.join(EVID, f"{self.prop}.json"), "w"), indent=1, default=str)
         self.cleanup()
         if unlisted:
             print(f"RESULT property={self.prop} tier={self.tier}: {len(unlisted)} violating cases "
